@@ -110,3 +110,28 @@ func VerifMulticastSessions() {
 func verifListenUDPStub(network string, laddr *net.UDPAddr) (*net.UDPConn, error) {
 	return &net.UDPConn{}, nil
 }
+
+// VerifMulticastRestart (C03 / C01): the last member leaves (the proxy stops consuming; the
+// delivery goroutine of that consumption is still on its way out) and a new member joins at
+// once, restarting the proxy. The old consumption's exit must not tear the restarted proxy
+// down: the new member stays attached and the group is served.
+func VerifMulticastRestart() {
+	symapi.Deterministic(true)
+	src := media.NewStream("/live/a", verifSdp)
+	media.Regist(src)
+	proxy := &multicastProxy{path: "/live/a", multicastIP: "239.1.1.1", ttl: 1, bufferSize: 1024}
+	for i := range proxy.ports {
+		proxy.ports[i] = 5000 + i
+	}
+	m1, m2 := &verifMember{}, &verifMember{}
+	proxy.AddMember(m1)
+	symapi.Settle()
+	symapi.Assert(src.ConsumerCount() == 1, "proxy-consuming")
+	symapi.Deterministic(false)
+	proxy.ReleaseMember(m1) // last member: the proxy stops; its old delivery goroutine now exits
+	proxy.AddMember(m2)     // ... while a new member restarts it
+	symapi.Quiesce()
+	symapi.Assert(m2.closed == 0, "new-member-not-closed-by-the-old-consumption's-exit")
+	symapi.Assert(src.ConsumerCount() == 1 && !proxy.closed, "restarted-proxy-keeps-serving-the-group")
+	symapi.Reach("end")
+}
